@@ -77,7 +77,14 @@ def run_impl(case, defer=False):
         text, doc = "$[" + ",".join(str(j % m) for j in range(k)) + "]", list(range(m))
     else:
         text, doc = "$[*]", list(range(k))
-    q = jsonpath.query(text, doc) if h % 2 == 0 else jsonpath.compile(text).query(doc)
+    if case.get("env") == "narrow":
+        class Narrow(jsonpath.JSONPathEnvironment):          # index limits of the environment are not limits on counts
+            max_int_index = 3
+            min_int_index = -3
+        e = Narrow()
+        q = e.query(text, doc) if h % 2 == 0 else e.compile(text).query(doc)
+    else:
+        q = jsonpath.query(text, doc) if h % 2 == 0 else jsonpath.compile(text).query(doc)
 
     def read(child):
         if h == 0:
@@ -173,6 +180,10 @@ def _values(case, r):
 
 
 def evaluate(ctx, cases):
+    # the same scripts on a query made by an environment whose index limits are narrow (a sample: counts above the limit)
+    cases = list(cases) + [{**c, "env": "narrow"} for c in cases
+                           if c["k"] >= 4 and not c.get("dup") and c["ops"] and all(len(op) < 2 or not isinstance(op[1], int) or op[1] >= 0 for op in c["ops"])
+                           and any(len(op) > 1 and isinstance(op[1], int) and op[1] > 3 for op in c["ops"])][:1500]
     reqs = [{"op": "fluent.run", "k": c["k"], "ops": c["ops"]} for c in cases]
     outs = ctx.driver.run(reqs, jobs=ctx.jobs)
     for c, m in zip(cases, outs):
